@@ -364,6 +364,27 @@ class C13:
                     return f"{c['name']}: accepted output {list(o)} outside the qubit subspace has amplitude {leak:.3g}"
             if len(res.outputs) != 10:
                 return f"{c['name']}: expected 10 two-photon outputs on 4 modes, got {len(res.outputs)}"
+        # history: the SAME gate object added twice to a larger circuit over overlapping neighbouring qubits (the first
+        # addition's ancillas lie inside the span of the second): the gate object must be unchanged afterwards, and the
+        # parent must equal the one built from two fresh gates
+        if k == "gate" and g.input_modes >= 2:
+            try:
+                w = g.input_modes
+                par = lw.Circuit(w + 2)
+                par.add(g, 0)
+                par.add(g, 2)
+                ref = lw.Circuit(w + 2)
+                ref.add(self._make(c), 0)
+                ref.add(self._make(c), 2)
+                ug = np.asarray(g.U_full)
+                u0g = np.array([[complex(*z) for z in row] for row in obs["ok"][5]])
+                if ug.shape != u0g.shape or np.max(np.abs(ug - u0g)) > UTOL or g.n_modes != obs["ok"][0]:
+                    return f"{nm}(tq={c.get('tq')}): the gate object changed after it was added twice to a larger circuit"
+                up, ur = np.asarray(par.U_full), np.asarray(ref.U_full)
+                if up.shape != ur.shape or np.max(np.abs(up - ur)) > UTOL or par.heralds != ref.heralds:
+                    return f"{nm}(tq={c.get('tq')}): adding one gate object twice differs from adding two fresh gates"
+            except Exception as e:  # noqa: BLE001
+                return f"{nm}(tq={c.get('tq')}): adding the gate twice to a larger circuit raised {type(e).__name__}: {e}"
         # history: a gate object that was edited in place (and the arrays it handed out) must not show up in the next
         # gate built with the same arguments (shared module-level instances, cached sub-circuits or matrices)
         try:
